@@ -2,6 +2,7 @@ package resolve
 
 import (
 	"encoding/binary"
+	"math"
 	"sync"
 	"sync/atomic"
 
@@ -51,8 +52,14 @@ type InflightRequest struct {
 	followerCount atomic.Int32
 }
 
-func (r *InflightRequest) AddFollower() {
-	r.followerCount.Add(1)
+// followersClosed is stored into followerCount by the leader when it takes its follower
+// check; registrations that come later see a non-positive count and must start over.
+const followersClosed = math.MinInt32 / 2
+
+// AddFollower registers a follower. It returns false when the leader has already taken its
+// follower check: the leader will not publish data for this caller.
+func (r *InflightRequest) AddFollower() bool {
+	return r.followerCount.Add(1) > 0
 }
 
 func (r *InflightRequest) HasFollowers() bool {
@@ -96,23 +103,27 @@ func (r *InboundRequestSingleFlight) GetOrCreate(ctx *Context, response *GraphQL
 		ID:   key,
 	}
 
-	inflight, shared := shard.m.LoadOrStore(key, request)
-	if shared {
-		request = inflight.(*InflightRequest)
-		verifhook.Yield("inbound.follower.before_add", key)
-		request.AddFollower()
-		select {
-		case <-request.Done:
-			if request.Err != nil {
-				return nil, request.Err
-			}
+	for {
+		inflight, shared := shard.m.LoadOrStore(key, request)
+		if !shared {
 			return request, nil
+		}
+		existing := inflight.(*InflightRequest)
+		verifhook.Yield("inbound.follower.before_add", key)
+		if !existing.AddFollower() {
+			// the leader already deleted the entry and took its follower check: start over
+			continue
+		}
+		select {
+		case <-existing.Done:
+			if existing.Err != nil {
+				return nil, existing.Err
+			}
+			return existing, nil
 		case <-ctx.ctx.Done():
 			return nil, ctx.ctx.Err()
 		}
 	}
-
-	return request, nil
 }
 
 func (r *InboundRequestSingleFlight) FinishOk(req *InflightRequest, data []byte) {
@@ -122,7 +133,7 @@ func (r *InboundRequestSingleFlight) FinishOk(req *InflightRequest, data []byte)
 	verifhook.Yield("inbound.leader.finish_ok", req.ID)
 	shard := r.shardFor(req.ID)
 	shard.m.Delete(req.ID)
-	if req.HasFollowers() {
+	if req.followerCount.Swap(followersClosed) > 0 {
 		// optimization to only copy when we actually have to
 		req.Data = make([]byte, len(data))
 		copy(req.Data, data)
